@@ -11,3 +11,5 @@ import Tup.Spec.Decode
 import Tup.Gen.Diacritics
 import Tup.Drv.Ids
 import Tup.Props.C10
+import Tup.Props.C09
+import Tup.Drv.E2e
